@@ -101,6 +101,8 @@ pub struct Native {
     pub world: usize,
     pub removals: u64,
     pub creations: u64,
+    /// predicted archetype version at issue (direct handles)
+    pub ver: u64,
 }
 
 /// One entry of the handle book: every handle ever seen, of any age and kind.
